@@ -32,11 +32,15 @@ STEPS = [10, 30, 60, 100, 300, 600]
 TID = 10001
 
 
-def gen_case(rng):
+def gen_case(rng, force_shape=None):
     step = rng.choice(STEPS)
     n = rng.randrange(3, 8)
     start = datetime(rng.choice([2018, 2019, 2020, 2021]), rng.randrange(1, 13), rng.randrange(1, 28), rng.randrange(24), rng.randrange(60), rng.choice([0, 0, rng.randrange(60)]))
-    shape = rng.choice(["inside", "spanning", "start_on", "end_on", "both_on", "neither", "neither", "at_epoch", "dyadic", "abutting", "abutting"])
+    shape = rng.choice(["inside", "spanning", "start_on", "end_on", "both_on", "neither", "neither", "at_epoch", "dyadic", "abutting", "abutting", "late_tail"])
+    if shape == "late_tail" and rng.random() < 0.5:
+        shape = "neither"  # the long runs are expensive: half as frequent
+    if force_shape:
+        shape = force_shape
     if shape == "dyadic":
         # exact Julian-date arithmetic: start on a dyadic day fraction, burn start 2700 s (1/32 day) later, on a step boundary
         step = rng.choice([100, 300, 300, 600])
@@ -66,6 +70,15 @@ def gen_case(rng):
         ka = rng.randrange(1, n - 1)
         kb = rng.randrange(ka + 1, n)
         a, b = ka * step, kb * step
+    elif shape == "late_tail":
+        # more than a day into the scenario, a multi-step burn ending 1-3 s after a step boundary: anything comparing
+        # times with a *relative* tolerance treats that tail as "already over"
+        step = 3600
+        n = rng.randrange(32, 40)
+        total = n * step
+        k_end = rng.randrange(30, n)
+        b = k_end * step + 1  # one second: the smallest whole-second tail
+        a = b - rng.randrange(step + 10, 2 * step)
     elif shape == "at_epoch":
         a = 0
         b = rng.randrange(1, total)
@@ -120,7 +133,7 @@ def build_cfg(case):
         evs.append({"scope": "agent_propagation", "scope_instance_id": TID, "start_time": sk.iso(start + timedelta(seconds=s2["t_on"])),
                     "end_time": sk.iso(start + timedelta(seconds=s2["t_off"])), "event_type": "finite_burn", "acc_vector": s2["vec"], "thrust_frame": case["burn"][-3:], "planned": False})
     return sk.scenario_cfg(start, start + timedelta(seconds=(case["n"] + 1) * case["step"]), case["step"], [sk.engine_cfg(1, tg, sn)], truth_only=True, model=case["model"],
-                           geopotential={"model": "egm96.txt", "degree": 2, "order": 0}, events=evs)
+                           geopotential={"model": "egm96.txt", "degree": 2, "order": 0}, events=evs, integration="DOP853" if case["shape"] == "late_tail" else "RK45")
 
 
 def _thrust(case, y):
@@ -302,7 +315,9 @@ def run(ctx):
     for i in range(n):
         if ctx.time_left() < 10:
             break
-        case = gen_case(rng)
+        # every run contains the expensive but otherwise unreachable shapes at least once
+        forced = {0: "late_tail", 1: "dyadic", 2: "at_epoch", 3: "abutting"}.get(ctx.shard) if i == 0 else None
+        case = gen_case(rng, forced)
         eval_case(ctx, case)
         ctx.count("shape_" + case["shape"])
         ctx.case((case["start"], case["step"], case["t_on"], case["t_off"], case["burn"], case["model"]), nontrivial=case["t_off"] % case["step"] != 0,
